@@ -26,6 +26,7 @@ class FakeTransport(object):
     self.producer = None
     self.protocol = None
     self.lose_log = []
+    self.pause_after = 0        # armed by the environment: the n-th write from now fills the socket buffer
 
   # -- used by BaseConnector
   def failIfNotConnected(self, err):
@@ -39,9 +40,14 @@ class FakeTransport(object):
 
   # -- used by the protocol
   def write(self, data):
-    if self.disconnected or self.closing:
+    # (Twisted keeps accepting writes after loseConnection() and flushes them before closing)
+    if self.disconnected:
       return
     self.written.append(bytes(data))
+    if self.pause_after:
+      self.pause_after -= 1
+      if self.pause_after == 0 and self.producer is not None:
+        self.producer.pauseProducing()
 
   def writeSequence(self, seq):
     for d in seq:
@@ -179,7 +185,10 @@ class Relay(evx.System):
     settings['DESTINATIONS'] = [dest_str(d) for d in self.dests]
     settings['RELAY_METHOD'] = 'rules'
     settings['TAG_RELAY_NORMALIZED'] = False
-    settings['USE_RATIO_RESET'] = False
+    settings['USE_RATIO_RESET'] = bool(p.get('ratio_reset'))
+    settings['MIN_RESET_STAT_FLOW'] = 1
+    settings['MIN_RESET_RATIO'] = 0.9
+    settings['MIN_RESET_INTERVAL'] = 0
     settings['CARBON_METRIC_INTERVAL'] = 0
     settings['TIME_TO_DEFER_SENDING'] = 0.0001
     rules = os.path.join(env.scratch(), 'relay-rules-%d.conf' % os.getpid())
@@ -207,8 +216,9 @@ class Relay(evx.System):
     from carbon import service, state, events
     client = self.client
     self.reactor = FakeReactor(self)
-    self.saved = (client.reactor, ReconnectingClientFactory.clock, client.CarbonClientFactory.jitter)
+    self.saved = (client.reactor, ReconnectingClientFactory.clock, client.CarbonClientFactory.jitter, client.time)
     client.reactor = self.reactor
+    client.time = self.reactor.clock.seconds
     ReconnectingClientFactory.clock = self.reactor.clock
     client.CarbonClientFactory.jitter = 0
     self.events = events
@@ -233,26 +243,17 @@ class Relay(evx.System):
     self.sent = {d: [] for d in self.dests}
     self.receivers = []
     self.rx_pool = 0
+    self.badstats = False
 
   def close(self):
     if getattr(self, 'saved', None):
       from twisted.internet.protocol import ReconnectingClientFactory
       client = self.client
-      client.reactor, ReconnectingClientFactory.clock, client.CarbonClientFactory.jitter = self.saved
+      client.reactor, ReconnectingClientFactory.clock, client.CarbonClientFactory.jitter, client.time = self.saved
       self.saved = None
 
   def on_lose_connection(self, dest):
-    if self.stopped:
-      # account for what was written before the close was requested
-      t = self.transport(dest)
-      if t is not None:
-        saved, t.closing = t.closing, False
-        v = self.flush_written(dest)
-        t.closing = saved
-        if v:
-          self.lose_after_stop.append((dest, [v]))
-          return
-      self.lose_after_stop.append((dest, list(self.q.get(dest, []))))
+    pass
 
   # ---- helpers --------------------------------------------------------------------------------------------
   def factory(self, d):
@@ -290,8 +291,14 @@ class Relay(evx.System):
           prod = t.producer
           if prod is not None:
             evs.append(('tresume', i) if getattr(prod, 'paused', False) else ('tpause', i))
+            if self.p.get('arm') and not getattr(prod, 'paused', False) and not t.pause_after:
+              evs.append(('arm', i, 1))
+              if self.p.get('protocol') == 'line':
+                evs.append(('arm', i, 2))
     if self.reactor.clock.getDelayedCalls():
       evs.append(('tick',))
+    if self.p.get('ratio_reset'):
+      evs.append(('goodstats',) if self.badstats else ('badstats',))
     if not self.stopped and self.p.get('stop', True):
       evs.append(('stop',))
     if self.with_receivers and not self.stopped:
@@ -379,10 +386,24 @@ class Relay(evx.System):
         reason = Failure(error.ConnectionDone() if kind == 'closed' else error.ConnectionLost())
         t.disconnected = True
         t.connected = False
-        self.flush_written(d)
+        v0 = self.flush_written(d)
+        if v0:
+          return v0
+        if kind == 'closed' and self.stopped and f is not None and not f.continueTrying and self.q[d]:
+          # an orderly stop gave up on this destination (no further reconnects) and closed it with data still queued
+          return ('closed-before-flush', 'after stop the connection to %r was closed for good with %r still queued' % (d, self.q[d]))
         self.ref_down(d, f.continueTrying if f is not None else False)
         t.protocol.connectionLost(reason)
         c.connectionLost(reason)
+      elif kind == 'arm':
+        self.transport(self.dests[ev[1]]).pause_after = ev[2]
+      elif kind == 'badstats':
+        # what recordMetrics() leaves behind after an interval in which the destination fell behind
+        self.badstats = True
+        self.state.instrumentation.prior_stats['metricsReceived'] = 1000
+      elif kind == 'goodstats':
+        self.badstats = False
+        self.state.instrumentation.prior_stats.clear()
       elif kind == 'tpause':
         self.transport(self.dests[ev[1]]).producer.pauseProducing()
       elif kind == 'tresume':
@@ -471,11 +492,6 @@ class Relay(evx.System):
       got = stats.get('destinations.%s.fullQueueDrops' % name, 0)
       if got != self.drops[d]:
         return ('drop-count', 'fullQueueDrops for %r is %r, %d datapoints were discarded' % (d, got, self.drops[d]))
-    if self.lose_after_stop:
-      d, q = self.lose_after_stop[0]
-      if q:
-        return ('closed-before-flush', 'after stop the connection to %r was closed with %r still queued' % (d, q))
-      del self.lose_after_stop[:]
     return None
 
   def check(self):
@@ -495,7 +511,7 @@ class Relay(evx.System):
       per.append((
         tuple((m, rank[k]) for m, k in self.q[d]),
         c.state if c is not None else None,
-        bool(t.closing) if t is not None else None,
+        bool(t.closing) if t is not None else None, getattr(t, 'pause_after', 0) if t is not None else None,
         bool(getattr(proto, 'paused', False)) if proto is not None else None,
         f is not None, bool(getattr(getattr(f, 'queueFull', None), 'called', False)),
         bool(getattr(getattr(f, 'queueHasSpace', None), 'called', False)),
@@ -510,7 +526,7 @@ class Relay(evx.System):
     timers = tuple(sorted(round(c.getTime() - now, 6) for c in self.reactor.clock.getDelayedCalls()))
     rx = tuple(t.producerState for p, t in self.receivers)
     return (tuple(per), timers, tuple((m, rank[k]) for m, k in self.unrouted), bool(self.state.metricReceiversPaused),
-            bool(self.state.cacheTooFull), self.stopped, rx)
+            bool(self.state.cacheTooFull), self.stopped, rx, self.badstats)
 
   def on_new_state(self):
     """Delivery liveness (C07): in a benign environment every queue of a connected destination drains."""
@@ -528,6 +544,10 @@ class Relay(evx.System):
   # ---- quiescence (C09) ---------------------------------------------------------------------------------------------
   def quiesce(self):
     """Let the environment be kind: resume paused transports, complete pending connects, fire timers."""
+    if self.badstats:
+      v = self.apply(('goodstats',))
+      if v:
+        return v
     for _ in range(300):
       progressed = False
       for i, d in enumerate(self.dests):
